@@ -398,3 +398,11 @@ func (p *Prog) PkgScopeNames(rel string) []types.Object {
 
 // TypePos is the position of a type declaration.
 func (p *Prog) TypePos(tn *types.TypeName) string { return p.Pos(tn.Pos()) }
+
+// InstrPosOr is InstrPos that tolerates nil.
+func (p *Prog) InstrPosOr(i ssa.Instruction) string {
+	if i == nil {
+		return "?"
+	}
+	return p.InstrPos(i)
+}
